@@ -966,6 +966,143 @@ def r05_14(chk, tier):
             if not real and not missing: chk.ok('R05.14', site, None)
     chk.require(n >= 2, 'R05.14: compiler loops not found')
 
+def r05_15(chk, tier, units=('bson',), files=('bson_decimal128.hpp',)):
+    """An index that grows by one per loop iteration stays inside the fixed-size local array it indexes."""
+    import re
+    chk.rule('R05.15', 'growing index into a fixed local array: where a local `T a[N]` is indexed by (or up to) a local variable v that some '
+                       'statement increments, every path from the increment to an element access a[v] / a[x] with x running up to v passes a '
+                       'test that bounds v from above, and the bound it passes is at most N-1 (`v < N`, `v - w >= N` rejected with w always 0, ...); '
+                       'what the rejecting outcome of that test does (error return, clamping) is not judged', floor=1)
+    n = 0
+    for unit in units:
+        facts = F.load([unit], tier)
+        if unit not in chk.units: chk.units.append(unit)
+        for fn in U.one_per_inst([f for f in facts.functions if f.get('body') is not None and not f.get('dep') and f['file'].endswith(files)]):
+            arrays = {}
+            for d in A.walk_no_lambda(fn['body']):
+                if d.get('k') == 'VarDecl':
+                    m = re.match(r'^(?:const )?[\w: ]+\[(\d+)\]$', F.tname(fn, d.get('t')))
+                    if m: arrays[d['id']] = (d, int(m.group(1)))
+            if not arrays: continue
+            g = C.CFG(fn['body'])
+            # variables that are only ever given the value 0
+            assigns = {}
+            for x in A.walk_no_lambda(fn['body']):
+                if x.get('k') == 'VarDecl' and x.get('init') is not None: assigns.setdefault(x['id'], []).append(A.const(x['init']))
+                if x.get('k') in ('BinaryOperator', 'CompoundAssignOperator') and x.get('op', '').endswith('=') and x.get('op') not in ('==', '!=', '<=', '>='):
+                    t = A.strip(x.get('lhs'), casts=True)
+                    if t is not None and t.get('k') == 'DeclRefExpr': assigns.setdefault(t['id'], []).append(A.const(x.get('rhs')) if x['op'] == '=' else None)
+                if x.get('k') == 'UnaryOperator' and x.get('op') in ('++', '--', '&'):
+                    t = A.strip(x.get('sub'), casts=True)
+                    if t is not None and t.get('k') == 'DeclRefExpr': assigns.setdefault(t['id'], []).append(None)
+            zero_vars = set(i for i, vs in assigns.items() if vs and all(v == 0 for v in vs))
+            def vid(e):
+                e = A.strip(e, casts=True)
+                return e.get('id') if e is not None and e.get('k') == 'DeclRefExpr' and e.get('dk') in ('Var', 'ParmVar') else None
+            def quantity(e):
+                """v for `v` and for `v - w` with w always 0"""
+                e2 = A.strip(e, casts=True)
+                if vid(e2) is not None: return vid(e2)
+                if e2 is not None and e2.get('k') == 'BinaryOperator' and e2.get('op') == '-' and vid(e2.get('rhs')) in zero_vars: return vid(e2.get('lhs'))
+                return None
+            for aid, (adecl, N) in sorted(arrays.items()):
+                # accesses a[e]; the variables the index is, or is bounded by through a dominating `x <= v` / `x < v`
+                uses = []
+                for nd in g.rpo:
+                    if nd.kind not in ('stmt', 'cond', 'return', 'switch') or not isinstance(nd.ast, dict): continue
+                    for x in A.walk_no_lambda(nd.ast):
+                        if x.get('k') == 'ArraySubscriptExpr' and len(x.get('c') or []) == 2 and vid(x['c'][0]) == aid:
+                            ivs = set(y.get('id') for y in A.walk(x['c'][1]) if y.get('k') == 'DeclRefExpr' and y.get('dk') == 'Var')
+                            lim = set()
+                            for a, lab, e in g.guards(nd):
+                                cmp_ = G.comparison(a)
+                                if cmp_ and isinstance(lab, bool):
+                                    op = cmp_[0] if lab else G.NEG[cmp_[0]]
+                                    l, r = vid(cmp_[1]), vid(cmp_[2])
+                                    if l in ivs and r is not None and op in ('<', '<='): lim.add(r)
+                                    if r in ivs and l is not None and op in ('>', '>='): lim.add(l)
+                            uses.append((nd, x, ivs | lim))
+                idx_vars = set(v for _, _, vs in uses for v in vs)
+                for v in sorted(idx_vars):
+                    # increment statements (`v++;`): a cursor stepped inside a subscript (`a[i++]`) or in a for header
+                    # (`for (; i <= v; ++i)`) is bounded by what its loop compares it with, and is judged through that bound
+                    incs = [nd for nd in g.rpo if nd.kind == 'stmt' and isinstance(nd.ast, dict) and (A.strip(nd.ast) or {}).get('k') == 'UnaryOperator' and
+                            A.strip(nd.ast).get('op') == '++' and vid(A.strip(nd.ast).get('sub')) == v]
+                    incs = [nd for nd in incs if not any(x_.get('k') == 'ForStmt' and x_.get('inc') is not None and any(z is nd.ast for z in A.walk(x_['inc'])) for x_ in A.walk_no_lambda(fn['body']))]
+                    if not incs: continue
+                    vname = next((y.get('n') for y in A.walk_no_lambda(fn['body']) if y.get('k') == 'VarDecl' and y.get('id') == v), '?')
+                    targets = [(nd, x) for nd, x, vs in uses if v in vs]
+                    for inc in incs:
+                        n += 1
+                        chk.analysed(fn)
+                        site = U.site(fn, '%s[%s] after %s++ @%d' % (adecl.get('n'), vname, vname, inc.line - fn['l']))
+                        # forward exploration from the increment with facts (local == constant) learnt on the way
+                        hit = None; weak = None
+                        seen = set(); work = [(s2, frozenset()) for s2 in inc.succ]
+                        steps = 0
+                        while work and hit is None and steps < 200000:
+                            nd, fs = work.pop(); steps += 1
+                            if (nd.id, fs) in seen: continue
+                            seen.add((nd.id, fs))
+                            if nd is not inc and any(nd is t for t, _ in targets): hit = nd; break
+                            if nd.kind in ('return', 'exit', 'throw', 'unreach'): continue
+                            if nd.kind in ('stmt', 'cond') and isinstance(nd.ast, dict):
+                                # assignments kill facts about their target
+                                killed = set()
+                                for y in A.walk_no_lambda(nd.ast):
+                                    t = None
+                                    if y.get('k') in ('BinaryOperator', 'CompoundAssignOperator') and y.get('op', '').endswith('=') and y.get('op') not in ('==', '!=', '<=', '>='): t = vid(y.get('lhs'))
+                                    if y.get('k') == 'UnaryOperator' and y.get('op') in ('++', '--'): t = vid(y.get('sub'))
+                                    if t is not None: killed.add(t)
+                                if killed: fs = frozenset(f_ for f_ in fs if f_[0] not in killed)
+                                # v given a constant inside the array
+                                if nd.kind == 'stmt':
+                                    x0 = A.strip(nd.ast)
+                                    if x0 is not None and x0.get('k') == 'BinaryOperator' and x0.get('op') == '=' and vid(x0.get('lhs')) == v and A.const(x0.get('rhs')) is not None and 0 <= A.const(x0['rhs']) < N: continue
+                            if nd.kind == 'cond' and isinstance(nd.ast, dict):
+                                cmp_ = G.comparison(nd.ast)
+                                # a test that bounds v from above ends the search on both outcomes: it is the test that belongs to the increment
+                                if cmp_ and weak is None:
+                                    q0, K0, op0 = quantity(cmp_[1]), A.const(cmp_[2]), cmp_[0]
+                                    if q0 is None and quantity(cmp_[2]) is not None and A.const(cmp_[1]) is not None: q0, K0, op0 = quantity(cmp_[2]), A.const(cmp_[1]), G.FLIP[cmp_[0]]
+                                    if q0 == v and K0 is not None and op0 in ('<', '<=', '>', '>='):
+                                        ubs = [{'<': K0 - 1, '<=': K0}.get(o) for o in (op0, G.NEG[op0])]
+                                        ub = next((u for u in ubs if u is not None), None)
+                                        if ub is not None and ub <= N - 1: continue
+                                        if ub is not None: weak = (nd, ub); continue
+                                for e in nd.succ:
+                                    if e.kind != 'edge' or not isinstance(e.label, bool): work.append((e, fs)); continue
+                                    fs2 = fs
+                                    if cmp_:
+                                        op = cmp_[0] if e.label else G.NEG[cmp_[0]]
+                                        q, K = quantity(cmp_[1]), A.const(cmp_[2])
+                                        if q is None and quantity(cmp_[2]) is not None and A.const(cmp_[1]) is not None:
+                                            q, K, op = quantity(cmp_[2]), A.const(cmp_[1]), G.FLIP[op]
+                                        if q == v and K is not None:
+                                            ub = {'<': K - 1, '<=': K, '==': K}.get(op)
+                                            if ub is not None and ub <= N - 1: continue          # bounded from here on
+                                            if ub is not None and op != '==':
+                                                # this is the bounds test that follows the increment, and it lets v reach N or more; what its
+                                                # other outcome does (an error return, clamping) does not matter
+                                                weak = (nd, ub); continue
+                                        elif q is not None and K is not None and op in ('==', '!='):
+                                            truth = (op == '==')
+                                            if (q, K, not truth) in fs: continue                     # contradicts what this path established
+                                            fs2 = fs | {(q, K, truth)}
+                                    work.append((e, fs2))
+                                continue
+                            for s2 in nd.succ: work.append((s2, fs))
+                        if hit is None and weak is None: chk.ok('R05.15', site, {'function': fn['q'], 'array': adecl.get('n'), 'size': N, 'index': vname, 'states_explored': len(seen)})
+                        elif weak is not None:
+                            chk.fail('R05.15', site, fn['file'], weak[0].line, '%s: after `%s++` (line %s) the bounds test `%s` (line %s) lets %s go on up to %d, but it bounds accesses to `%s`, which has %d elements (last index %d): '
+                                     'element %d, one past the end, is accessed (for example at line %s)' % (fn['n'], vname, inc.line, A.text(weak[0].ast)[:60], weak[0].line, vname, weak[1], adecl.get('n'), N, N - 1, N,
+                                                                                                              targets[-1][0].line if targets else '?'), {'increment_line': inc.line, 'test_line': weak[0].line, 'allows_up_to': weak[1], 'array_size': N}, fn['q'])
+                        else:
+                            chk.fail('R05.15', site, fn['file'], hit.line, '%s: `%s` (line %s) is read or written at an index that runs up to `%s`, which line %s increments, and a path from the increment reaches '
+                                     'it without a test that keeps %s below %d (the size of %s): one element past the end of the array is accessed' % (
+                                         fn['n'], A.text([x for t, x in targets if t is hit][0])[:40], hit.line, vname, inc.line, vname, N, adecl.get('n')), {'increment_line': inc.line, 'access_line': hit.line}, fn['q'])
+    chk.require(n >= 1, 'R05.15: no growing index into a fixed local array found in %s' % (files,))
+
 def run(chk, tier, only_rule=None):
     chk.explanation = EXPLANATION
     chk.not_decided = NOT_DECIDED
@@ -986,6 +1123,7 @@ def run(chk, tier, only_rule=None):
     c04.r04_6(chk, facts)
     r05_12(chk, tier)
     r05_14(chk, tier)
+    r05_15(chk, tier)
     from . import c15
     for u_ in ('core', 'csv', 'jsonpath', 'jmespath', 'toon'):
         c15.r15_8(chk, F.load([u_], tier), rid='R05.13', floor=1)
